@@ -546,4 +546,43 @@ def run (s : Heap) : List Op → Heap
   | [] => s
   | op :: ops => run (step s op).1 ops
 
+/-! ### the plain list-of-records reference (DESIGN §4 `Recs`, `abs`) -/
+
+structure Recs where
+  cols : List String
+  rows : List (List Cell)
+  deriving Repr, DecidableEq
+
+/-- a dictable read as records -/
+def Table.abs (t : Table) : Recs := ⟨t.cols, t.rows⟩
+
+namespace Recs
+
+/-- keep the flagged records -/
+def mask (r : Recs) (m : List Bool) : Recs := ⟨r.cols, ((r.rows.zip m).filter (·.2)).map (·.1)⟩
+
+/-- `[records[i] for i in is]` with python indices; IndexError if one is out of range -/
+def take (r : Recs) (is : List Int) : Except Err Recs :=
+  if is.all fun i => (pyIdx r.rows.length i).isSome then
+    .ok ⟨r.cols, is.filterMap fun i => (pyIdx r.rows.length i).map fun j => r.rows.getD j []⟩
+  else .error .index
+
+/-- `records[a:b:s]` -/
+def slice (r : Recs) (a b : Option Int) (s : Int) : Recs :=
+  ⟨r.cols, (sliceIdx r.rows.length a b s).map fun j => r.rows.getD j []⟩
+
+/-- rename the keys of every record -/
+def rename (r : Recs) (f : String → String) : Recs := ⟨r.cols.map f, r.rows⟩
+
+end Recs
+
+/-- the value of a record (cells aligned with `cols`) under key `k`, `None` if the key is absent -/
+def Recs.lookup (cols : List String) (row : List Cell) (k : String) : Cell :=
+  (((cols.zip row).find? (·.1 == k)).map (·.2)).getD .none
+
+/-- list-of-records concatenation: all keys, the records of each operand in order, absent keys `None` -/
+def Recs.concat (rs : List Recs) : Recs :=
+  let keys := dedupKeys (rs.flatMap Recs.cols)
+  ⟨keys, rs.flatMap fun r => r.rows.map fun row => keys.map fun k => Recs.lookup r.cols row k⟩
+
 end Pyg
